@@ -727,5 +727,5 @@ META = {
     "the stage's own position in the command list; the overlay normaliser's indexed reads are guarded for every shape of value (non-list, lists of 0..n words). Value-level round-trips are not decided.",
     "note": "Decides the listed structural clauses, not the behaviour. The converter->detyper table is frozen from "
     "reading tools.py/environ.py; a converter the table has never seen is reported in the evidence, not failed.",
-    "more": "Also decided: the overlay's one-word unwrap indexes a value only where the guard implies the element exists for every shape of value; overlays stored in a loop over stages are created per iteration; Env.detype() never hands out its memoised mapping itself. Mutations of the type registry drop the memo; the type-lookup methods keep no state on the Env.",
+    "more": "Also decided: the overlay's one-word unwrap indexes a value only where the guard implies the element exists for every shape of value; overlays stored in a loop over stages are created per iteration; Env.detype() never hands out its memoised mapping itself. Mutations of the type registry drop the memo; the type-lookup methods keep no state on the Env. A scoped override that ends never unsets a variable that was set before (the 'absent' marker only on evidence of absence); every value in the store passed its converter (no raw store outside _set_item).",
 }
